@@ -103,13 +103,11 @@ func installVx(ex *Exec) {
 		lo := int64(ex.concreteInt(a[1].(*sym.Term), "lo"))
 		hi := int64(ex.concreteInt(a[2].(*sym.Term), "hi"))
 		w := 64
-		switch {
-		case lo >= -128 && hi <= 127:
-			w = 8
-		case lo >= -32768 && hi <= 32767:
-			w = 16
-		case lo >= -1<<31 && hi <= 1<<31-1:
-			w = 32
+		for k := 2; k < 64; k++ {
+			if lo >= -(int64(1)<<(k-1)) && hi <= int64(1)<<(k-1)-1 {
+				w = k
+				break
+			}
 		}
 		v := ex.NewInput(tag, sym.BV(w))
 		ex.assume(c.And(c.Cmp(sym.OSLe, c.Const(sym.BV(w), uint64(lo)), v), c.Cmp(sym.OSLe, v, c.Const(sym.BV(w), uint64(hi)))))
